@@ -32,9 +32,12 @@ def store : State → String → Val → State
 def traitOf (cls : ClassDef) (name : String) : Option TraitType :=
   (cls.find? (·.1 == name)).map (·.2)
 
-/-- Is `post_setattr` set on the CTrait (`Map`, `PrefixMap`: trait_types.py:3174, 3300). -/
+/-- Is `post_setattr` set on the CTrait (`Map`, `PrefixMap`: trait_types.py:3174, 3300;
+`TraitMap`: trait_handlers.py:586).  A compound with a mapped member is mapped too
+(TraitCompound._post_setattr, trait_handlers.py:728): not modelled, see C01 ASSUMPTIONS. -/
 def isMapped : TraitType → Bool
   | .map .. => true
+  | .mapH .. => true
   | .prefixMap .. => true
   | .noFast t => isMapped t
   | _ => false
